@@ -114,7 +114,16 @@ def run(ctx):
             continue
         toks = ans[3:].split(";")
         mv = [parse_c(t) if cplx else complex(b2f(t)) for t in toks[: len(vals)]]
-        if not all(rel_close(x, y) for x, y in zip(vals, mv)):
+        # arcsin has a square-root singularity at every critical angle: one ulp in its argument is amplified by
+        # 1/sqrt(1 - x^2); within 2e-3 rad of a critical angle the comparison is made at 1e-7 instead of 1e-10
+        if what == "coef":
+            c_inc = {"fs": m["cF"], "slf": m["cL"], "stf": m["cT"]}[fn]
+        else:
+            c_inc = m["cF"] if fn[0] == "fluid_solid" else (m["cL"] if fn[1] == "L" else m["cT"])
+        crits = [np.arcsin(c_inc / c) for c in (m["cF"], m["cL"], m["cT"]) if c > c_inc]
+        near = any(abs(a - cr) < 2e-3 for cr in crits)
+        tolc = 1e-7 if near else 1e-10
+        if not all(rel_close(x, y, tolc) for x, y in zip(vals, mv)):
             ctx.disagree(f"{what} {fn}: arim {vals} vs model {mv}", cj)
     ctx.assumptions.append("complex arcsin / sin / cos are external routines; the driver uses the C99 principal branches (Kahan) and agrees with NumPy to 1e-10 relative")
 
